@@ -2,7 +2,7 @@
     order the harness observed on the wire and compare what every caller was
     told. *)
 From Coq Require Import List NArith ZArith Bool String.
-From Verif Require Import Lib.Bytes Sni.Wire Sni.WireGen Sni.WireCorr Sni.Rpc Gen.WireSchema.
+From Verif Require Import Lib.Bytes Sni.Wire Sni.WireGenDefs Sni.WireCorr Sni.Rpc Gen.WireSchema.
 Import ListNotations.
 Local Open Scope N_scope.
 
